@@ -34,9 +34,12 @@ ASSUMPTIONS = ["integer-millisecond clock (sub-millisecond float behaviour is no
 UNREG_BASE = 1_000_000   # trace scenarios numbered from here unregister services while answers are queued
 LATE_BASE = 2_000_000    # ... from here run on a loop whose timers fire a seeded 0..LATE ms late (oracle only: the model's loop facts exclude it)
 LATE = 3
-V6_BASE = 3_000_000      # ... from here every source is a link-local IPv6 peer (4-tuple sockaddr: the listener passes its scope id on, the
-                         # responder compares its own scope-less records with scope-less copies of the known answers), mostly truncated
-                         # trains whose packets list DIFFERENT known answers
+V6_BASE = 3_000_000      # ... from here the host is IPv6-ONLY (one IPv6 socket; it hears its own multicasts back on it, so the cache holds its
+                         # own AAAA records with the socket's scope id: D29), every service has an AAAA record, every source is a link-local
+                         # IPv6 peer (4-tuple sockaddr: the listener passes its scope id on, the responder compares its own scope-less
+                         # records with scope-less copies of the known answers: D25), mostly truncated trains whose packets list DIFFERENT
+                         # known answers, and questions for the hosts' addresses inside the second after they were multicast
+BIG_BASE = 4_000_000     # ... from here 8-12 services with large TXT records: a PTR reply needs several datagrams
 
 GRID = [0, 0, 1, 20, 20, 60, 119, 120, 121, 200, 380, 499, 500, 501, 880, 999, 1000, 1001, 1120, 1200]
 T0 = vsim.T0
@@ -349,7 +352,8 @@ def run_cls_stream(ctx, res):
 def run_scenario(seed, sc_no):
     """-> dict(tr, uni, zc, errors, infos, actions); fully determined by (seed, sc_no)"""
     late = LATE if isinstance(sc_no, int) and LATE_BASE <= sc_no < V6_BASE else 0
-    v6_mode = isinstance(sc_no, int) and sc_no >= V6_BASE
+    v6_mode = isinstance(sc_no, int) and V6_BASE <= sc_no < BIG_BASE
+    big_mode = isinstance(sc_no, int) and sc_no >= BIG_BASE
     sim = vsim.Sim(seed="%s/%s" % (seed, sc_no), maxdelay=0, max_late=late)
     rng = C.rng_for(seed, "c12", "tr", sc_no)
     jrng = C.rng_for(seed, "c12", "jitter", sc_no)
@@ -372,10 +376,16 @@ def run_scenario(seed, sc_no):
 
         from zeroconf import const as k
 
-        host = sim.make_host("A", "10.0.0.1")
+        if v6_mode:
+            from . import c11 as _c11
+
+            host = _c11.make_host(sim, "6")
+            box["v6loop"] = _c11.V6Loopback(sim, host)
+        else:
+            host = sim.make_host("A", "10.0.0.1")
         zc = host.zc
         await zc.async_wait_for_start()
-        infos = R.make_infos(rng)
+        infos = R.make_infos(rng, aaaa=v6_mode, big=big_mode, n=rng.choice([8, 10, 12]) if big_mode else None)
         while unreg_mode and len(infos) < 2:  # something must stay registered when a service is withdrawn
             infos = R.make_infos(rng)
         uni = R.Universe()
@@ -457,9 +467,18 @@ def run_scenario(seed, sc_no):
                 age = rng.choice([0, 1, 999, 1000, 1001, 250 * ttl - 1, 250 * ttl, 250 * ttl + 1, 500, 100])
                 e = R.with_ttl(r, ttl)
                 e.created = float(now - age)
-                zc.cache.async_add_records([e])
-                tr.pokes.append((now, uni.id(r)))
-                actions.append(("poke", now - T0, uni.id(r), age))
+                planted = [e]
+                if v6_mode and r.type == k._TYPE_AAAA:
+                    # an IPv6-only host holds its AAAA records only as it heard them: with the socket's scope id.  The poke re-stamps
+                    # those copies (a real multicast refreshes them); it does not invent a scope-less copy nobody could have heard
+                    from zeroconf import _dns as d_
+                    store = zc.cache.cache.get(r.key) or {}
+                    planted = [d_.DNSAddress(x.name, x.type, x.class_ | (0x8000 if x.unique else 0), ttl, x.address, scope_id=x.scope_id, created=e.created)
+                               for x in list(store) if isinstance(x, d_.DNSAddress) and x.type == r.type and x.address == r.address and x.scope_id is not None]
+                if planted:
+                    zc.cache.async_add_records(planted)
+                    tr.pokes.append((now, uni.id(r)))
+                    actions.append(("poke", now - T0, uni.id(r), age))
             src = rng.choice(srcs)
             port = 5353 if (v6_mode or rng.random() < 0.85) else 40000   # (IPv6 peers: multicast replies only -- the simulated host's socket is IPv4)
             probe = rng.random() < 0.12
@@ -503,7 +522,17 @@ def run_scenario(seed, sc_no):
                         sim.loop.call_later(off / 1000.0, host.deliver, data, sa(s2, port))
                     actions.append(("tcq", now - T0 + off, s2, port, data.hex()))
             else:
-                data, _qs, _qus = R.build_query(rng, infos, uni, next_id(), probe=probe, **({"qu_p": 0} if v6_mode else {}))
+                kw = {"qu_p": 0} if v6_mode else {}
+                if v6_mode and rng.random() < 0.5:
+                    # the host's own address records (AAAA: cached with the socket's scope id), asked for while their last multicast is fresh
+                    inf_ = rng.choice(infos)
+                    kw["questions"] = [(inf_.server, rng.choice([k._TYPE_AAAA, k._TYPE_AAAA, k._TYPE_A, k._TYPE_ANY]))]
+                if big_mode and rng.random() < 0.8:
+                    # a reply of several datagrams: all instances of a type (the additionals spill over), or -- ANSWERS in every packet --
+                    # the large TXT records of all services
+                    kw["questions"] = [(rng.choice(infos).type, k._TYPE_PTR)] if rng.random() < 0.4 else [(i_.name, k._TYPE_TXT) for i_ in infos]
+                    kw["known_p"] = 0
+                data, _qs, _qus = R.build_query(rng, infos, uni, next_id(), probe=probe, **kw)
                 host.deliver(data, sa(src, port))
                 actions.append(("q", now - T0, src, port, data.hex()))
             if unreg_mode and len(registered) >= 2 and urng.random() < 0.45:
@@ -525,6 +554,8 @@ def run_scenario(seed, sc_no):
     finally:
         if "tr" in box:
             box["tr"].uninstall()
+        if "v6loop" in box:
+            box.pop("v6loop").remove()
     box["errors"] = [str(e.get("exception") or e.get("message")) for e in sim.errors]
     return box
 
@@ -661,6 +692,178 @@ def tc_pass(res, tr, blocks, case, end_t, late=0):
             res.violate("C12:tc-unanswered", "truncated query of %s (last packet at %d ms) never answered" % (addr, last_t[addr] - T0), dict(case, source=addr))
 
 
+# ------------------------------------------------------------------------------------------
+# The documented behaviour, as a prediction (review 3, item 1)
+#
+# A KNOWN finding must be recognised from the INPUT: the scenario's packets, sightings and draws determine which transmission the
+# finding predicts, and when.  `ref_predict` is a small reference responder written from the property's sentences plus the six listed
+# deviations (D12 quarter-TTL rule for QU questions; first-packet stamp: D12b and train-reply-before-jitter; first-packet question
+# rule; additionals never tested; pending groups never re-examined).  Its constants are the property's (20..120 from the recorded
+# draws, 500, 1000, 1200 = 1000 + 200, a quarter of the TTL), NOT the translated leaves, so it does not follow a changed tree.
+# A violation of the English is filed under a finding's signature only if this reference predicts that very transmission (block,
+# record, section); any other transmission keeps a fresh signature (`<finding>:unpredicted` or the generic one).
+
+IMM_TYPES = (33, 1, 28, 47)
+
+
+class RefQueue:
+    def __init__(self, addl, agg):
+        self.addl, self.agg = addl, agg
+        self.groups = []   # [send_after, send_before, {rid: [additionals]}]
+        self.timer = None
+
+    def add(self, clock, now, draw, answers):
+        rd = draw + self.addl
+        sa, sb = now + rd, now + self.agg + self.addl
+        if self.groups:
+            last = self.groups[-1]
+            if sa <= last[0]:
+                last[2].update(answers)
+                return
+        else:
+            self.timer = clock + rd
+        self.groups.append([sa, sb, dict(answers)])
+
+    def ready(self, now):
+        if not self.groups:
+            self.timer = None
+            return None
+        if len(self.groups) > 1 and self.groups[0][1] > now:
+            self.timer = self.groups[0][1]
+            return None
+        batch = {}
+        while self.groups and self.groups[0][0] <= now:
+            batch.update(self.groups.pop(0)[2])
+        self.timer = self.groups[0][0] if self.groups else None
+        if not batch:
+            return None
+        for g in self.groups:
+            for r in batch:
+                g[2].pop(r, None)
+        return batch
+
+    def remove(self, recs):
+        recs = set(recs)
+        for g in self.groups:
+            g[2] = {a: [x for x in adds if x not in recs] for a, adds in g[2].items() if a not in recs}
+
+
+def ref_additionals(d):
+    out = []
+    for adds in d.values():
+        for a in adds:
+            if a not in d and a not in out:
+                out.append(a)
+    return out
+
+
+def ref_response(pkts, ucast_source, seen):
+    """what `async_response` hands out for an assembled query, as documented: (ucast, now, aggregate, last second), each rid -> additionals"""
+    items = [it for p in pkts for it in p["items"]]
+    if not items:
+        return None
+    first, last = pkts[0], pkts[-1]
+    probe = any(p["num_auth"] > 0 for p in pkts)
+    known = [kv for p in pkts if p["num_auth"] == 0 for kv in p["known"]]
+    now, nq, q0 = last["now"], first["nq"], first["q0type"]     # (first-packet question rule: listed finding)
+    additionals, ucast, mnow, magg, mlast = {}, [], [], [], []
+
+    def setadd(l, k):
+        if k not in l:
+            l.append(k)
+
+    for qu, cands in items:
+        ans = {}
+        for rid, ttl, adds, sup in cands:
+            if sup:
+                ks = [kt for (kr, kt) in known if kr == rid]
+                if ks and ttl < 2 * ks[-1]:
+                    continue
+            ans[rid] = list(adds)
+        if qu and not ucast_source:
+            for rid, adds in ans.items():
+                additionals[rid] = adds
+                s = seen.get(rid)
+                within_quarter = s is not None and s[0] + 250 * s[1] > now     # (quarter of the TTL, not one second: D12)
+                if probe:
+                    setadd(ucast, rid)
+                if not within_quarter:
+                    setadd(mnow, rid)
+                elif not probe:
+                    setadd(ucast, rid)
+            continue
+        additionals.update(ans)
+        if ucast_source:
+            for rid in ans:
+                setadd(ucast, rid)
+        for rid in ans:
+            s = seen.get(rid)
+            if probe:
+                setadd(mnow, rid)
+            elif s is not None and now - s[0] < 1000:
+                setadd(mlast, rid)
+            elif nq == 1 and q0 in IMM_TYPES:
+                setadd(mnow, rid)
+            else:
+                setadd(magg, rid)
+    f = lambda l: {r: additionals.get(r, []) for r in l}
+    return f(ucast), f(mnow), f(magg), f(mlast)
+
+
+def ref_predict(blocks, L=0):
+    """block index -> (answers, additionals) of the multicast the reference responder sends in that block ([] [] = none);
+    None from the first block on at which the reference and the observed run part ways (a queue timer that is not the reference's,
+    a missing draw): nothing after that is 'predicted'"""
+    outq, delayq = RefQueue(0, 500), RefQueue(1000, 200)
+    pred, parsed, lost = {}, {}, False
+    for j, b in enumerate(blocks):
+        t = b["t"]
+        if b["kind"] == "rx" and b.get("parsed"):
+            parsed[b["data"]] = b["parsed"]
+        if lost:
+            pred[j] = None
+            continue
+        if b["kind"] == "qf":
+            q = delayq if b["delayed"] else outq
+            if q.timer is None or not (q.timer <= t <= q.timer + L):
+                lost = True
+                pred[j] = None
+                continue
+            batch = q.ready(t)
+            pred[j] = (list(batch), ref_additionals(batch)) if batch else ([], [])
+        elif b["kind"] == "rm":
+            (delayq if b["delayed"] else outq).remove(b["recs"])
+            pred[j] = ([], [])
+        elif b.get("asm") and b["asm"]["npkts"]:
+            asm = b["asm"]
+            try:
+                # (the same bytes may have been delivered again since: the packet the listener holds carries ITS arrival time)
+                pkts = [dict(parsed[d], now=n) for d, n in zip(asm["datas"], asm.get("nows") or [parsed[d]["now"] for d in asm["datas"]])]
+            except KeyError:
+                lost = True
+                pred[j] = None
+                continue
+            seen = {i: (c, ttl) for (i, c, ttl) in asm["seen"]}
+            qa = ref_response(pkts, asm["port"] != 5353, seen)
+            if qa is None:
+                pred[j] = ([], [])
+                continue
+            _u, mnow, magg, mlast = qa
+            draws = [v for (lo, hi, v) in b["draws"] if lo == 20]
+            if len(draws) != (1 if magg else 0) + (1 if mlast else 0):
+                lost = True
+                pred[j] = None
+                continue
+            if magg:
+                outq.add(t, pkts[0]["now"], draws.pop(0), magg)       # (stamped with the FIRST packet's arrival: listed findings)
+            if mlast:
+                delayq.add(t, pkts[0]["now"], draws.pop(0), mlast)
+            pred[j] = (list(mnow), ref_additionals(mnow))
+        else:
+            pred[j] = ([], [])
+    return pred
+
+
 def check_trace_O(res, box, case):
     tr = box["tr"]
     blocks = tr.blocks
@@ -695,8 +898,8 @@ def check_trace_O(res, box, case):
                     valid_, isq_, qubits_, _pkt = b["pq"]  # (parsed outside the listener when the block was recorded)
                     guard = (data, t, bool(qubits_.startswith("1 ") and not qubits_.endswith("-")), unsure)
                     if valid_ and not isq_ and not unsure:
-                        for r in DNSIncoming(data).answers():
-                            rid = tr.uni.ids.get(r)
+                        for r in DNSIncoming(data).answers():  # (parsed without a scope id: the record as it is on the wire)
+                            rid = tr.uni.ids.get(R.without_scope(r))
                             if rid is not None and r.ttl > 0 and (t, rid) not in tr.pokes:
                                 sight[rid] = (t, int(r.ttl))
         if b["kind"] == "rx" and b.get("parsed"):
@@ -709,6 +912,27 @@ def check_trace_O(res, box, case):
         for o in b["outs"]:
             if o["mcast"]:
                 mcasts.append((i, o["t"], o["ans"], o["add"]))
+    # ---- what the documented behaviour predicts, block by block (recognition of KNOWN findings only; never widens a bound)
+    pred = ref_predict(blocks, L)
+    for j, b in enumerate(blocks):
+        if pred.get(j) is None:
+            res.count("tr:blocks-beyond-the-reference")
+            continue
+        oa = sorted({r for (jj, _s, ans, _a) in mcasts if jj == j for r in ans})
+        ox = sorted({r for (jj, _s, _ans, add) in mcasts if jj == j for r in add})
+        if (oa, ox) != (sorted(pred[j][0]), sorted(pred[j][1])):
+            res.disagree("c12ref", dict(case, at_block=j, block=dict(kind=b["kind"], t=b["t"] - T0)), "multicast answers %s additionals %s" % (oa, ox),
+                         "reference responder (property + listed findings): answers %s additionals %s" % (sorted(pred[j][0]), sorted(pred[j][1])))
+            break
+
+    def predicted(j, rid, section=0):
+        """the reference responder sends `rid` in block j (section 0 = answers, 1 = additionals)"""
+        return pred.get(j) is not None and rid in pred[j][section]
+
+    def known(sig, ok):
+        """a finding's signature only for the transmission the finding predicts"""
+        return sig if ok else sig + ":unpredicted"
+
     # ---- no duplicates inside a batch
     for (i, s, ans, add) in mcasts:
         if len(set(ans + add)) != len(ans + add):
@@ -737,7 +961,7 @@ def check_trace_O(res, box, case):
                     if cls == "now" and not info["probe"] and info["first_packet_rule"] and not info["code_now"]:
                         what = ("truncated train of %d packets whose only question (SRV/A/AAAA/NSEC) is not in its first packet: answer %s is aggregated instead of "
                                 "being sent at once (the single-question test reads the first packet only)" % (info["npkts"], tr.uni.describe(rid)))
-                        sig = "C12:train-first-packet-question-rule"
+                        sig = known("C12:train-first-packet-question-rule", pred.get(i) is not None and rid not in pred[i][0])
             elif cls == "agg":
                 if not any(j >= i and c <= s <= c + 500 + L and rid in ans for (j, s, ans, _a) in mcasts):
                     what = "answer %s not multicast within 500 ms of the query" % tr.uni.describe(rid)
@@ -769,7 +993,7 @@ def check_trace_O(res, box, case):
                     continue
                 hit = next(((j, m) for (j, m, ans, add) in mcasts if j >= i and rid in ans and x in add and t_arr <= m < sx[0] + 1000), None)
                 if hit is not None:
-                    res.violate("C12:additional-remulticast-within-1s",
+                    res.violate(known("C12:additional-remulticast-within-1s", predicted(hit[0], x, 1) and predicted(hit[0], rid, 0)),
                                 "%s was seen multicast at %d ms; a query arrived at %d ms (%d ms later); its reply at %d ms carries %s as an additional of %s, "
                                 "%d ms after the sighting (additionals are never subject to the one-second protection)" % (
                                     tr.uni.describe(x), sx[0] - T0, t_arr - T0, t_arr - sx[0], hit[1] - T0, tr.uni.describe(x), tr.uni.describe(rid),
@@ -820,6 +1044,14 @@ def check_trace_O(res, box, case):
                                                   tr.uni.describe(rid), info["t_first"] - T0, info["t_last"] - T0, s - T0, s - info["t_last"]))
                     elif cls == "prot" and i < j and info["t_last"] + 20 <= s <= c + 1200 + L and s >= info["seen"][0] + 1000:
                         just = True
+                    elif cls == "prot" and i < j and info["npkts"] > 1 and info["t_first"] + 1020 <= s < info["t_last"] + 20 and s <= c + 1200 + L \
+                            and s >= info["seen"][0] + 1000:
+                        # the same finding for a protected answer: stamped t_first + 1000 + draw, it merges into a protected group that is
+                        # already due and leaves less than 20 ms after the train was completed by an untruncated packet
+                        finding = finding or ("C12:train-reply-before-jitter",
+                                              "%s answers a truncated train (first packet %d ms, last packet %d ms) from the protected queue and is multicast at %d ms, %d ms after "
+                                              "the query was complete (no earlier than 20 ms is required; the queue entry is stamped with the first packet's arrival)" % (
+                                                  tr.uni.describe(rid), info["t_first"] - T0, info["t_last"] - T0, s - T0, s - info["t_last"]))
                     elif cls == "free" and i <= j and c <= s <= c + 1200 + L:
                         just = True
                     elif info["dontcare"]:
@@ -837,7 +1069,7 @@ def check_trace_O(res, box, case):
                         hit = next((inf2 for (r2, cls2, inf2) in classes2 if r2 == rid and cls2 == "prot" and not inf2["probe"]
                                     and inf2["t_last"] <= s < inf2["seen"][0] + 1000), None)
                         if hit is not None:
-                            res.violate("C12:pending-batch-remulticast-within-1s",
+                            res.violate(known("C12:pending-batch-remulticast-within-1s", predicted(j, rid, 0)),
                                         "%s was seen multicast at %d ms; a query asking for it arrived at %d ms (%d ms later, classified 'seen in the last second'); "
                                         "the reply to an EARLIER query (handled at %d ms, group already pending) multicasts it at %d ms, %d ms after the sighting" % (
                                             tr.uni.describe(rid), hit["seen"][0] - T0, hit["t_last"] - T0, hit["t_last"] - hit["seen"][0],
@@ -845,13 +1077,13 @@ def check_trace_O(res, box, case):
                             break
                 continue
             if finding is not None:
-                res.violate(finding[0], finding[1], dict(case, at_ms=s - T0))
+                res.violate(known(finding[0], predicted(j, rid, 0)), finding[1], dict(case, at_ms=s - T0))
                 continue
             held = next((info for (i, b2, classes) in asms if i < j for (r2, cls, info) in classes
                          if r2 == rid and cls == "prot" and info["held_sighting"]
                          and info["t_first"] + 1020 <= s <= b2["t"] + 1200 + L and s < info["seen"][0] + 1000), None)
             if held is not None and d12 is None:
-                res.violate("C12:held-query-remulticast-within-1s",
+                res.violate(known("C12:held-query-remulticast-within-1s", predicted(j, rid, 0)),
                             "%s was seen multicast at %d ms, while a truncated query (first packet %d ms, last packet %d ms) was being held; the reply to that query "
                             "multicasts it again at %d ms, %d ms after the sighting (the protected queue is stamped with the first packet's arrival, "
                             "the one-second test uses the last packet's)" % (
@@ -860,7 +1092,7 @@ def check_trace_O(res, box, case):
                 continue
             if d12 is not None:
                 ttl = d12["seen"][1]
-                sig = "C12:qu-remulticast-within-1s-ttl-le-3" if ttl <= 3 else "C12:remulticast-within-1s"
+                sig = known("C12:qu-remulticast-within-1s-ttl-le-3", predicted(j, rid, 0)) if ttl <= 3 else "C12:remulticast-within-1s"
                 res.violate(sig, "%s seen multicast %d ms before a QU query (TTL %d s) is multicast again at once" % (
                     tr.uni.describe(rid), d12["t_last"] - d12["seen"][0], ttl), dict(case, at_ms=s - T0))
             else:
@@ -880,7 +1112,8 @@ def run_trace_stream(ctx, res, n, only=None, n_extra=None):
     # (the two extra families are not multiplied when the search is widened: they are slower per scenario)
     ne = n if n_extra is None else n_extra
     todo = only if only is not None else [(ctx["seed"], k) for k in range(n)] + [(ctx["seed"], UNREG_BASE + k) for k in range(ne // 8)] + \
-        [(ctx["seed"], LATE_BASE + k) for k in range(ne // 16)] + [(ctx["seed"], V6_BASE + k) for k in range(ne // 16)]
+        [(ctx["seed"], LATE_BASE + k) for k in range(ne // 16)] + [(ctx["seed"], V6_BASE + k) for k in range(ne // 16)] + \
+        [(ctx["seed"], BIG_BASE + k) for k in range(ne // 50)]
     for (seed, sc_no) in todo:
         box = run_scenario(seed, sc_no)
         if "tr" not in box:
@@ -923,8 +1156,11 @@ def run_trace_stream(ctx, res, n, only=None, n_extra=None):
                 res.nontriv("tr-unreg/%d/%d" % (sum(1 for b in tr.blocks if b["kind"] == "rm" and b.get("hit")), len(box["unregs"])))
         if box.get("late"):
             res.count("tr:late-timer-scenarios (oracle only)")
-        if isinstance(sc_no, int) and sc_no >= V6_BASE:
-            res.count("tr:ipv6-peer-scenarios")
+        if isinstance(sc_no, int) and V6_BASE <= sc_no < BIG_BASE:
+            res.count("tr:ipv6-only-host-scenarios")
+        if isinstance(sc_no, int) and sc_no >= BIG_BASE:
+            res.count("tr:big-reply-scenarios")
+            res.count("tr:replies-of-several-datagrams", sum(1 for b in tr.blocks for o in b["outs"] if o.get("packets", 1) > 1))
         if model is not None and not box.get("late"):
             parts = model[idx].split(" | ")
             head, mobs = parts[0], parts[1:]
